@@ -64,7 +64,15 @@ def lay1(ctx, c):
         addr_var = None
         if isinstance(st, ast.For):
             steps = []
+            flat = []
             for s in st.body:
+                if isinstance(s, ast.Try) and not s.orelse and not s.finalbody:
+                    flat += s.body          # a wrapper that converts exceptions does not change the pass
+                else:
+                    flat.append(s)
+            for s in flat:
+                if isinstance(s, ast.Expr) and isinstance(s.value, ast.Call) and U(s.value.func) in ("print", "logging.debug", "logging.info"):
+                    continue
                 if isinstance(s, ast.Assign) and isinstance(s.value, ast.Call) and U(s.value.func).endswith(".set_address"):
                     addr_var = U(s.targets[0])
                     steps.append(("set", U(s.value.args[0]) if s.value.args else None))
@@ -76,6 +84,10 @@ def lay1(ctx, c):
                 re.fullmatch(r"\w+\.code_pkg\.size", steps[1][2]) is not None
             c.check(good, "translate_statements:address-pass", "address = set_address(address); address += code_pkg.size", "steps %s" % steps,
                     "the address pass must give each statement the running address and advance by exactly code_pkg.size; it does %s" % steps, repo.loc(fn, st))
+            j = i - 1
+            while j > 0 and isinstance(body[j], ast.Expr):
+                j -= 1
+            init = body[j] if j >= 0 else None
             init_ok = isinstance(init, ast.Assign) and U(init.targets[0]) == addr_var and try_fold(init.value) == 0
             c.check(init_ok, "translate_statements:address-init", "starts at 0", "initialisation %s" % (U(init) if init is not None else None),
                     "the running address must start at 0 immediately before the pass", repo.loc(fn, st))
